@@ -23,6 +23,24 @@ class Err(Exception):
     self.i = i
 
 
+class BaseErr(BaseException):
+  """A failure that is not an Exception subclass (as gevent.Timeout and GreenletExit are)."""
+  def __init__(self, i):
+    BaseException.__init__(self, 'B%d' % i)
+    self.i = i
+
+
+ERRCLS = [Err]
+
+
+def mkerr(i):
+  return ERRCLS[0](i)
+
+
+def iserr(x):
+  return isinstance(x, (Err, BaseErr))
+
+
 def snap(ar):
   if not ar.ready():
     return ('pending',)
@@ -58,7 +76,7 @@ def complete(ar, i, ok):
   if ok:
     ar.set(val(i))
   else:
-    ar.set_exception(Err(i))
+    ar.set_exception(mkerr(i))
 
 
 def check_when(kind, n, rep, stats):
@@ -88,7 +106,7 @@ def check_when(kind, n, rep, stats):
         oks = [i for i in done if outcome[i]]
         if kind == 'all':
           if failed:
-            good = got[0] == 'fail' and isinstance(got[1], Err) and got[1].i in failed
+            good = got[0] == 'fail' and iserr(got[1]) and got[1].i in failed
             want = 'failed with one of the failures so far %s' % failed
           elif len(done) == n:
             good = got[0] == 'ok' and got[1] == [val(i) for i in range(n)] and all(type(a) is type(b) for a, b in zip(got[1], [val(i) for i in range(n)]))
@@ -105,12 +123,12 @@ def check_when(kind, n, rep, stats):
             want = 'value of the first input to succeed %s' % first_ok
           elif len(done) == n:
             last = [i for i in pre] if not order else [order[-1]]
-            good = got[0] == 'fail' and isinstance(got[1], Err) and got[1].i in last
+            good = got[0] == 'fail' and iserr(got[1]) and got[1].i in last
             want = 'failed with the last failure %s' % last
           else:
             good = got == ('pending',)
             want = 'pending (no input has succeeded, not all have failed)'
-        stats['cases_keys'].add((kind, n, outcome, pre, order, s, got[0], VALMODE[0]))
+        stats['cases_keys'].add((kind, n, outcome, pre, order, s, got[0], VALMODE[0], ERRCLS[0].__name__))
         if not good:
           clause = 'C17.when%s' % kind
           if kind == 'any' and oks and got[0] in ('fail', 'both') and s is not None:
@@ -140,7 +158,7 @@ def check_unwrap(max_depth, rep, stats, plain='plain'):
 
         def fire(i):
           if fail_at is not None and i == fail_at:
-            ars[i].set_exception(Err(i))
+            ars[i].set_exception(mkerr(i))
           elif i == live - 1:
             ars[i].set(plain)
           else:
@@ -168,7 +186,7 @@ def check_unwrap(max_depth, rep, stats, plain='plain'):
           else:
             want = ('pending',)
           if want[0] == 'fail':
-            good = got[0] == 'fail' and isinstance(got[1], Err) and got[1].i == want[1]
+            good = got[0] == 'fail' and iserr(got[1]) and got[1].i == want[1]
           else:
             good = got == want
           case = {'combinator': 'Unwrap', 'depth': depth, 'fails_at_level': fail_at, 'final_value': repr(plain),
@@ -197,7 +215,7 @@ def check_continue(rep, stats):
               if src == 'ok':
                 ar.set(srcval)
               else:
-                ar.set_exception(Err(0))
+                ar.set_exception(mkerr(0))
             inner = AsyncResult()
 
             def fn(x):
@@ -208,7 +226,7 @@ def check_continue(rep, stats):
                 inner.set('inner')
                 return inner
               if cont == 'returns_failed_ar':
-                inner.set_exception(Err(8))
+                inner.set_exception(mkerr(8))
                 return inner
               return 'cont'
             if when == 'before':
@@ -233,7 +251,7 @@ def check_continue(rep, stats):
             if api == 'ContinueWith':
               want_calls = 1
               if cont == 'raises':
-                good = got[0] == 'fail' and isinstance(got[1], Err) and got[1].i == 7
+                good = got[0] == 'fail' and iserr(got[1]) and got[1].i == 7
               elif cont in ('returns_ar', 'returns_failed_ar'):
                 good = got == ('ok', inner)
               else:
@@ -242,15 +260,15 @@ def check_continue(rep, stats):
             else:
               if src == 'fail':
                 want_calls = 0
-                good = got[0] == 'fail' and isinstance(got[1], Err) and got[1].i == 0 and not calls
+                good = got[0] == 'fail' and iserr(got[1]) and got[1].i == 0 and not calls
               else:
                 want_calls = 1
                 if cont == 'raises':
-                  good = got[0] == 'fail' and isinstance(got[1], Err) and got[1].i == 7
+                  good = got[0] == 'fail' and iserr(got[1]) and got[1].i == 7
                 elif cont == 'returns_ar':
                   good = got == ('ok', 'inner')
                 elif cont == 'returns_failed_ar':
-                  good = got[0] == 'fail' and isinstance(got[1], Err) and got[1].i == 8
+                  good = got[0] == 'fail' and iserr(got[1]) and got[1].i == 8
                 else:
                   good = got == ('ok', 'cont')
                 good = good and len(calls) == 1 and calls[0] is srcval
@@ -276,6 +294,16 @@ def main(tier, seed):
       check_when(kind, n, rep, stats)
       world.reset()
   VALMODE[0] = 'text'
+  # failures that are BaseException but not Exception (gevent.Timeout, GreenletExit): a failed input is a failed input
+  ERRCLS[0] = BaseErr
+  for kind in ('all', 'any'):
+    for n in range(1, (4 if tier == 'quick' else 5) + 1):
+      check_when(kind, n, rep, stats)
+      world.reset()
+  check_unwrap(3, rep, stats)
+  check_continue(rep, stats)
+  world.reset()
+  ERRCLS[0] = Err
   check_unwrap(4 if tier == 'quick' else 5, rep, stats)
   for plain in FALSY:
     check_unwrap(3 if tier == 'quick' else 4, rep, stats, plain)
